@@ -8,6 +8,7 @@ import z3
 
 from .. import assume as A
 from .. import spec
+from ..report import FAILED, PROVED, ob
 from ..env import heavy, knotspace
 from ..symx import harness as H
 from ..symx.sym import Sym
@@ -165,6 +166,49 @@ def task_union(js):
 task_union.contract_fn = "heavy.ImmutableKnotVector.__or__"
 
 
+# --------------------------------------------------------------------------------------
+# engine B: operands on different intervals are refused - including a proper SUB-interval whose ends are full-multiplicity knots of the other operand
+# --------------------------------------------------------------------------------------
+def task_intervals():
+    fn = "heavy.ImmutableKnotVector.__or__"
+    from fractions import Fraction as F
+    from ..env import knotspace
+    KVc = knotspace.KnotVector
+    pairs = [
+        ([0, 0, 1, 1, 2, 2, 3, 3], [1, 1, 2, 2]), ([0, 0, 0, 1, 2, 2, 2, 4, 4, 4], [0, 0, 0, 1, 1, 2, 2, 2]), ([0, 0, 1, 1], [0, 0, 2, 2]),
+        ([0, 0, 1, 1], [1, 1, 2, 2]), ([0, 1, 2, 3], [1, 2]), ([0, 1, 2, 3], [0, 1, 2]), ([-1, -1, -1, 0, 0, 0, 5, 5, 5], [0, 0, 0, 5, 5, 5]),
+        ([0, 0, 1, 1], [F(1, 2), F(1, 2), 1, 1]), ([0, 0, 0, 1, 1, 1], [0, 0, 1 + F(1, 10 ** 12), 1 + F(1, 10 ** 12)]),
+    ]
+    ops = {"|": lambda a, b: a | b, "&": lambda a, b: a & b, "|=": lambda a, b: a.__ior__(b), "&=": lambda a, b: a.__iand__(b)}
+    bad, cases = [], 0
+    for U, V in pairs:
+        for x, y in ((U, V), (V, U)):
+            for name, op in ops.items():
+                for wrap in ("KnotVector", "list"):
+                    a = KVc([F(t) for t in x])
+                    b = KVc([F(t) for t in y]) if wrap == "KnotVector" else [F(t) for t in y]
+                    before = tuple(a)
+                    cases += 1
+                    try:
+                        r = op(a, b)
+                        bad.append(("%s %s %s (%s)" % (x, name, y, wrap), "returned %s" % (tuple(map(str, r)),)))
+                    except ValueError:
+                        if tuple(a) != before:
+                            bad.append(("%s %s %s (%s)" % (x, name, y, wrap), "ValueError but the left operand changed"))
+                    except Exception as e:
+                        bad.append(("%s %s %s (%s)" % (x, name, y, wrap), "%s instead of ValueError" % type(e).__name__))
+    if bad:
+        return [ob("%s:different-intervals-refused" % fn, fn, FAILED, "B", "concrete", 0.0,
+                   "%d of %d requests on different intervals not refused with ValueError; first: %s: %s" % (len(bad), cases, bad[0][0], bad[0][1]),
+                   dict(kind="c17.intervals"))]
+    return [ob("%s:different-intervals-refused" % fn, fn, PROVED, "B", "concrete", 0.0,
+               "%d requests (| & |= &=, both operand orders, KnotVector / list operand) on 9 pairs of different intervals incl. sub-intervals ending at "
+               "full-multiplicity knots: ValueError, left operand unchanged" % cases), {"_stats": dict(cases=cases)}]
+
+
+task_intervals.contract_fn = "heavy.ImmutableKnotVector.__or__"
+
+
 def tasks(tier, seed):
     from ..pyvc.driver import verify
     from ..contracts import facade, facade2
@@ -172,11 +216,14 @@ def tasks(tier, seed):
     # install the result atomically (the values of the merge are decided per joint shape below)
     ts = [(verify, (c, m, q, v)) for c, m, q, v in facade2.ALL if c.name.endswith(("__or__", "__and__"))]
     ts += [(verify, (c, m, q, v)) for c, m, q, v in facade.ALL if c.name.endswith(("__ior__", "__iand__"))]
-    return ts + [(task_union, (js,)) for js in tier_joint(tier)]
+    return ts + [(task_intervals, ())] + [(task_union, (js,)) for js in tier_joint(tier)]
 
 
 def replay(o):
     w = o["witness"]
+    if w.get("kind") == "c17.intervals":
+        r = task_intervals()[0]
+        return r["status"] == FAILED, "ValueError for operands on different intervals", r["detail"]
     js = (w["js"][0], w["js"][1], tuple(tuple(c) for c in w["js"][2]))
     pt = H.frac_point(w["point"])
     ks = [pt["k%d" % i] for i in range(len(js[2]) + 2)]
